@@ -49,6 +49,46 @@ type uwCore struct {
 }
 
 func (u *uwCore) Header() http.Header { return u.h }
+
+// Unwrap: every underlying writer of this stream also wraps an inner writer that supports every optional interface.
+// The capabilities of the Context's writer are those of the writer the router was GIVEN; whatever reaches the inner
+// writer is recorded as a "U-…" event, which no expected event list contains.
+func (u *uwCore) Unwrap() http.ResponseWriter { return uwInner{u} }
+
+type uwInner struct{ c *uwCore }
+
+func (x uwInner) Header() http.Header {
+	x.c.events = append(x.c.events, "U-header")
+	return http.Header{}
+}
+func (x uwInner) WriteHeader(int) { x.c.events = append(x.c.events, "U-wh") }
+func (x uwInner) Write(b []byte) (int, error) {
+	x.c.events = append(x.c.events, "U-w")
+	return len(b), nil
+}
+func (x uwInner) Flush()            { x.c.events = append(x.c.events, "U-fl") }
+func (x uwInner) FlushError() error { x.c.events = append(x.c.events, "U-fe"); return nil }
+func (x uwInner) Hijack() (net.Conn, *bufio.ReadWriter, error) {
+	x.c.events = append(x.c.events, "U-hj")
+	return nil, nil, nil
+}
+func (x uwInner) Push(string, *http.PushOptions) error {
+	x.c.events = append(x.c.events, "U-pu")
+	return nil
+}
+func (x uwInner) SetReadDeadline(time.Time) error {
+	x.c.events = append(x.c.events, "U-rd")
+	return nil
+}
+func (x uwInner) SetWriteDeadline(time.Time) error {
+	x.c.events = append(x.c.events, "U-wd")
+	return nil
+}
+func (x uwInner) EnableFullDuplex() error { x.c.events = append(x.c.events, "U-fd"); return nil }
+func (x uwInner) ReadFrom(r io.Reader) (int64, error) {
+	x.c.events = append(x.c.events, "U-rf")
+	return io.Copy(io.Discard, r)
+}
 func (u *uwCore) WriteHeader(code int) {
 	u.events = append(u.events, "h"+itoa(code))
 	if code == 101 || code < 100 || code > 199 {
@@ -605,13 +645,27 @@ func runRW(fields []string) string {
 		return "0"
 	}
 	var is, js []string
-	for _, it := range items {
+	for k, it := range items {
 		is = append(is, strings.Join([]string{itoa(it.status), b01(it.written), itoa(it.size), it.n, it.err, it.ct, it.events}, ","))
 		wf := "wf"
 		if !it.wf {
 			wf = "illformed"
 		}
-		js = append(js, strings.Join([]string{itoa(it.status), b01(it.written), itoa(it.size), wf}, ","))
+		// an optional capability is delegated to the writer the router was given (its event and no other) or refused
+		capRes := "-"
+		if k < len(calls) {
+			if ev, ok := map[string]string{"HJ": "hj", "PU": "pu", "RD": "rd", "WD": "wd", "FD": "fd"}[calls[k]]; ok {
+				switch {
+				case it.err == "notsup" && it.events == "-":
+					capRes = "notsup"
+				case it.err == "ok" && it.events == ev:
+					capRes = "deleg"
+				default:
+					capRes = "other:" + it.err + "/" + it.events
+				}
+			}
+		}
+		js = append(js, strings.Join([]string{itoa(it.status), b01(it.written), itoa(it.size), wf, capRes}, ","))
 	}
 	// ReaderFrom on/off must give the same answers and return values (the writer accepts at least one byte: with a
 	// writer that rejects the very first byte the two paths differ by design of the underlying writer, see props/C14.json)
